@@ -8,7 +8,7 @@ use mc::bfs::{bfs, par_states, Caps};
 use mc::ctx::*;
 use mc::json::J;
 use mc::mapsys::{applicable, exec_real, flush_ledger, prepare, Alpha, MapSys, Side};
-use mc::payload::{self as pl, Kx, Vx, CB_NAMES};
+use mc::payload::{self as pl, Kx, ValT, Vx, CB_NAMES};
 use mc::survivor::*;
 use micromap::{Map, Set};
 use std::panic::{catch_unwind, AssertUnwindSafe};
@@ -56,6 +56,9 @@ enum XOp {
     /// 4 empty. (Equal length with another slot order is the case an in-place overwrite gets wrong.)
     CloneFrom { src: u8 },
     SetCloneFrom { src: u8 },
+    /// `get_disjoint_mut` with the idx-th key tuple of length 2 or 3 over the universe (repeats included): a
+    /// comparison panics inside the overlap check or the scan; by key (`form` 0) or by the borrowed form (1)
+    Disjoint { j: u8, idx: u16, form: u8 },
 }
 const N_HOW: u8 = 9;
 
@@ -135,6 +138,13 @@ fn xops(n: usize, nk: u8) -> Vec<XOp> {
     for iter in 0..10u8 {
         for how in 0..N_HOW {
             v.push(XOp::Driven { iter, how });
+        }
+    }
+    for j in 2..=3u8 {
+        for idx in 0..(nk as u16).pow(j as u32) {
+            for form in 0..2u8 {
+                v.push(XOp::Disjoint { j, idx, form });
+            }
         }
     }
     for src in 0..5u8 {
@@ -359,6 +369,35 @@ fn run_x<const N: usize>(gsys: &MapSys<Kx, Vx, N>, path: &[u32], x: XOp, at: u32
             let _ = catch_unwind(AssertUnwindSafe(|| m == &o.c));
             (ticks, fired) = pl::disarm();
             other_map = Some(o);
+        }
+        XOp::Disjoint { j, idx, form } => {
+            let ks: Vec<u8> = (0..j).map(|p| ((idx / (nk as u16).pow(p as u32)) % nk as u16) as u8).collect();
+            let keys: Vec<Kx> = ks.iter().map(|k| Kx::new(*k, 1)).collect();
+            let m = &mut mapbx.as_mut().unwrap().c;
+            pl::arm(at);
+            let _ = catch_unwind(AssertUnwindSafe(|| {
+                // writes through whatever comes back: the references must be to live values of the map
+                macro_rules! go {
+                    ($($i:expr),*) => {{
+                        if form == 0 {
+                            for r in m.get_disjoint_mut([$(&keys[$i]),*]).into_iter().flatten() {
+                                r.set(0);
+                            }
+                        } else {
+                            for r in m.get_disjoint_mut([$(&ks[$i]),*]).into_iter().flatten() {
+                                r.set(0);
+                            }
+                        }
+                    }};
+                }
+                if j == 2 {
+                    go!(0, 1)
+                } else {
+                    go!(0, 1, 2)
+                }
+            }));
+            (ticks, fired) = pl::disarm();
+            drop(keys);
         }
         XOp::DropMap => {
             let m = mapbx.take().unwrap();
